@@ -1,7 +1,7 @@
 (** C07 Unicode mode decodes the stream as a whole, however reads split it.  Property theorems only. *)
 From Coq Require Import ZArith NArith List Bool.
 Import ListNotations.
-From PV Require Import Base.Utf8 IO.Model IO.Proofs.
+From PV Require Import Base.Utf8 IO.Model IO.Proofs IO.Utf8Facts.
 
 (** for ANY incremental decoder that is a Mealy machine over bytes, and any cutting of the byte stream into chunks
     (also inside a multi-byte character): decoding the chunks one after the other with the one persistent decoder
@@ -26,6 +26,13 @@ Proof. induction chunk as [|b r IH]; cbn; [reflexivity|]. now rewrite IH. Qed.
 Print Assumptions C07_bytes_mode_is_identity.
 
 (** non-vacuity: U+2603 cut after its first byte *)
+(** the UTF-8 instance (the decoder the model executes): what was encoded is decoded back, for every text over code points
+    below 2^21 (all of Unicode), however the bytes are cut into reads; the decoder ends in its initial state *)
+Theorem C07_utf8_roundtrip_any_cut : forall t chunks, Forall (fun c => (c < 2097152)%N) t -> concat chunks = utf8_encode t ->
+  let '(s1, ts) := decode_chunks utf8_codec (O, 0%N) chunks in s1 = (O, 0%N) /\ concat ts = t.
+Proof. exact utf8_any_cut. Qed.
+Print Assumptions C07_utf8_roundtrip_any_cut.
+
 Example C07_snowman_cut :
   concat (delivered (snd (run true {| has_all := false; has_read := false; has_send := false |} TFd
                         [Read [97; 226]%N; Read [152; 131; 98]%N]))) = [97; 9731; 98]%N.
